@@ -11,7 +11,7 @@ use serde_json::{json, Value};
 pub static ENGINE: Engine = Engine {
     prop: "C16",
     level: "exploration",
-    rule: "the real max_clique_gen binary on EVERY edge set over the vertex names {a,b,c} including self-loops (512 graphs; thorough: every loop-free edge set over {a,b,c,d}, 4096 graphs), every edge LIST of <= 3 edges over {a,b,c} (duplicates, both listing orders), the empty file, Windows line endings, and name families {x1, y', _z}, {a, v_a, b} (a vertex named like another vertex's copy) and {a_b, c, a, b_c} (colliding concatenations) x {-u} x {-a}. Oracle: the emitted text is parsed by the reference parser and evaluated by brute force over all assignments (quantifier by enumeration); its models, read as vertex sets with unmentioned vertices unconstrained, must equal the brute-force maximum cliques (all cliques with -a) under the directed / undirected reading; the real `rsbdd -t -f true` on the same text must list the same sets. distinct = distinct (edge list, flags)",
+    rule: "the real max_clique_gen binary on EVERY edge set over the vertex names {a,b,c} including self-loops (512 graphs; thorough: every loop-free edge set over {a,b,c,d}, 4096 graphs), every edge LIST of <= 3 edges over {a,b,c} (duplicates, both listing orders), the empty file, Windows line endings, and name families {x1, y', _z}, {a, v_a, b} (a vertex named like another vertex's copy) and {a_b, c, a, b_c} (colliding concatenations) ; every undirected graph on five vertices; structured graphs (paths, cycles, stars, complete, wheels, two cliques, bipartite) on 6..8 vertices with one-, two- and three-digit vertex names; x {-u} x {-a}. Oracle: the emitted text is parsed by the reference parser and evaluated by brute force over all assignments (quantifier by enumeration); its models, read as vertex sets with unmentioned vertices unconstrained, must equal the brute-force maximum cliques (all cliques with -a) under the directed / undirected reading; the real `rsbdd -t -f true` on the same text must list the same sets. distinct = distinct (edge list, flags)",
     assumptions: &["clique = vertex set whose distinct members are pairwise adjacent; adjacency without -u needs both directions, with -u either", "vertex names are identifiers; graphs of <= 4 vertices"],
     max_shards: 64,
     run,
@@ -228,6 +228,43 @@ fn run(ctx: &mut Ctx) {
         for mask in 0..(1usize << p.len()) {
             let edges: Vec<(String, String)> = (0..p.len()).filter(|i| mask & (1 << i) != 0).map(|i| p[i].clone()).collect();
             go(ctx, &edges, mask % 7 == 0);
+        }
+    }
+    // five vertices: every undirected graph (each pair listed once), maximum cliques up to size 5
+    {
+        let names = ["a", "b", "c", "d", "e"];
+        let mut und = vec![];
+        for i in 0..5 {
+            for j in (i + 1)..5 {
+                und.push(if (i * 3 + j) % 2 == 0 { (names[i].to_string(), names[j].to_string()) } else { (names[j].to_string(), names[i].to_string()) });
+            }
+        }
+        for mask in 0..(1usize << und.len()) {
+            let edges: Vec<(String, String)> = (0..und.len()).filter(|i| mask & (1 << i) != 0).map(|i| und[i].clone()).collect();
+            // -u with and without -a on every graph (directed reading in thorough as well)
+            for (fi, (u, all)) in (if th { vec![(true, false), (true, true), (false, false), (false, true)] } else { vec![(true, false), (true, true)] }).into_iter().enumerate() {
+                if ctx.mine((mask * 4 + fi) as u64) {
+                    check_graph(ctx, &edges, u, all, false);
+                }
+            }
+        }
+    }
+    // structured graphs on 6..8 vertices with one- and two-digit vertex names
+    {
+        let name = |i: usize| format!("v{}", [1usize, 10, 11, 2, 100, 3, 12, 20][i]);
+        let mut graphs: Vec<(String, Vec<(usize, usize)>)> = vec![];
+        for n in 6..=8usize {
+            graphs.push((format!("path{n}"), (0..n - 1).map(|i| (i, i + 1)).collect()));
+            graphs.push((format!("cycle{n}"), (0..n).map(|i| (i, (i + 1) % n)).collect()));
+            graphs.push((format!("star{n}"), (1..n).map(|i| (0, i)).collect()));
+            graphs.push((format!("complete{n}"), (0..n).flat_map(|i| ((i + 1)..n).map(move |j| (i, j))).collect()));
+            graphs.push((format!("wheel{n}"), (1..n).map(|i| (0, i)).chain((1..n).map(|i| (i, if i + 1 < n { i + 1 } else { 1 }))).collect()));
+            graphs.push((format!("two-cliques{n}"), (0..n / 2).flat_map(|i| ((i + 1)..n / 2).map(move |j| (i, j))).chain((n / 2..n).flat_map(|i| ((i + 1)..n).map(move |j| (i, j)))).chain([(0, n - 1)]).collect()));
+            graphs.push((format!("bipartite{n}"), (0..n / 2).flat_map(|i| (n / 2..n).map(move |j| (i, j))).collect()));
+        }
+        for (_, es) in graphs {
+            let edges: Vec<(String, String)> = es.iter().enumerate().map(|(k, (i, j))| if k % 2 == 0 { (name(*i), name(*j)) } else { (name(*j), name(*i)) }).collect();
+            go(ctx, &edges, false);
         }
     }
     if th {
